@@ -376,15 +376,43 @@ func c06Logical(op byte, l, r *c06E) *c06E {
 }
 
 // c06LogicalUnstable: the type of l && r / l || r would come from a Merge whose result depends on
-// map iteration order inside actionlint (see c06MergeUnstable); such expressions are not generated
-// because their verdict is not a function of (G, e).
+// map iteration order inside actionlint (see c06MergeUnstable), so the verdict is not a function of
+// (G, e); or from a Merge of objects that disagree on a common property (see c06MergeConflict), for
+// which forgetting one operand's properties is not a loosening. Such expressions are not generated.
 func c06LogicalUnstable(l, r *c06E) bool {
 	for _, lt := range []*c06Ty{l.T, c06Narrow(l, true), c06Narrow(l, false)} {
-		if c06MergeUnstable(lt, r.T) {
+		if c06MergeUnstable(lt, r.T) || c06MergeConflict(lt, r.T) {
 			return true
 		}
 	}
 	return false
+}
+
+// useMerged appends one access step that fits the static (merged) type of a logical expression.
+func (g *c06Gen) useMerged(m *c06E) *c06E {
+	s := "(" + m.S + ")"
+	t := m.T
+	switch t.K {
+	case c06Obj:
+		if len(t.Names) > 0 {
+			i := g.r.Intn(len(t.Names))
+			if g.r.Chance(1, 6) {
+				return &c06E{S: s + "['" + t.Names[i] + "']", T: t.Props[i]}
+			}
+			return &c06E{S: s + "." + c06CaseVar(g.r, t.Names[i]), T: t.Props[i]}
+		}
+		if t.Mapped != nil {
+			return &c06E{S: s + "." + g.r.Pick(c06KeyPool), T: t.Mapped}
+		}
+	case c06Arr:
+		if g.r.Bool() {
+			return &c06E{S: s + "[0]", T: t.Elem}
+		}
+		return &c06E{S: s + ".*", T: &c06Ty{K: c06Arr, Elem: t.Elem, Deref: true}}
+	case c06Any:
+		return &c06E{S: s + "." + g.r.Pick(c06KeyPool), T: c06TAny}
+	}
+	return &c06E{S: s, T: t, Op: m.Op, L: m.L, R: m.R}
 }
 
 func c06Paren(e *c06E) *c06E {
@@ -616,6 +644,20 @@ func (g *c06Gen) expr(w c06Want, d int) *c06E {
 		case x < 67:
 			inner := g.expr(w, d-1)
 			e = c06Paren(inner)
+		case x < 73: // (a || b).prop, (a && b)[0]: a use of the merged type
+			op := byte('|')
+			if g.r.Chance(1, 3) {
+				op = '&'
+			}
+			ow := c06WObj
+			if g.r.Chance(1, 5) {
+				ow = c06WArr
+			}
+			l, r := g.expr(ow, d-1), g.expr(ow, d-1)
+			if c06LogicalUnstable(l, r) {
+				continue
+			}
+			e = g.useMerged(c06Logical(op, l, r))
 		default:
 			switch w {
 			case c06WStr, c06WStrOnly:
